@@ -1,4 +1,5 @@
 import Skglm.Spec.Penalties
+import Skglm.Proofs.SubdiffAux
 /-
   Lemmas behind C08: the modelled `subdiff_distance` entry is the distance from `-grad` to the
   regular (Fréchet) sub-differential of the documented penalty.
@@ -16,58 +17,636 @@ def IsDistToSubdiff (φ : ℝ → Option ℝ) (w grad : ℝ) (d : Ext ℝ) : Pro
 
 end Skglm.Spec
 
-namespace Skglm.Proofs
+namespace Skglm.Proofs.SD
 open Skglm Skglm.Spec
+
+/-! ### distance to an interval, a half-line, a point -/
+
+theorem dist_none {φ : ℝ → Option ℝ} {w grad : ℝ} (h : ∀ g, ¬ IsRegSubgrad φ w g) :
+    IsDistToSubdiff φ w grad .inf := h
+
+theorem dist_Icc {φ : ℝ → Option ℝ} {w grad lvl : ℝ} (hl : 0 ≤ lvl)
+    (h : ∀ g, IsRegSubgrad φ w g ↔ -lvl ≤ g ∧ g ≤ lvl) :
+    IsDistToSubdiff φ w grad (.fin (max 0 (|grad| - lvl))) := by
+  refine ⟨?_, fun g hg => ?_⟩
+  · rcases le_or_gt |grad| lvl with h1 | h1
+    · refine ⟨-grad, (h _).2 ?_, ?_⟩
+      · have := abs_le.1 h1; constructor <;> linarith
+      · rw [sub_self, abs_zero, max_eq_left (by linarith)]
+    · rcases le_or_gt 0 grad with h2 | h2
+      · rw [abs_of_nonneg h2] at h1 ⊢
+        refine ⟨-lvl, (h _).2 ⟨le_refl _, by linarith⟩, ?_⟩
+        rw [max_eq_right (by linarith), abs_of_nonpos (by linarith)]; ring
+      · rw [abs_of_neg h2] at h1 ⊢
+        refine ⟨lvl, (h _).2 ⟨by linarith, le_refl _⟩, ?_⟩
+        rw [max_eq_right (by linarith), abs_of_nonneg (by linarith)]
+  · obtain ⟨h1, h2⟩ := (h g).1 hg
+    apply max_le (abs_nonneg _)
+    rcases abs_cases grad with ⟨e, _⟩ | ⟨e, _⟩ <;>
+      rcases abs_cases (-grad - g) with ⟨e', _⟩ | ⟨e', _⟩ <;> linarith
+
+theorem dist_Iic {φ : ℝ → Option ℝ} {w grad r : ℝ}
+    (h : ∀ g, IsRegSubgrad φ w g ↔ g ≤ r) :
+    IsDistToSubdiff φ w grad (.fin (max 0 (-grad - r))) := by
+  refine ⟨?_, fun g hg => ?_⟩
+  · rcases le_or_gt (-grad) r with h1 | h1
+    · refine ⟨-grad, (h _).2 h1, ?_⟩
+      rw [sub_self, abs_zero, max_eq_left (by linarith)]
+    · refine ⟨r, (h _).2 (le_refl _), ?_⟩
+      rw [max_eq_right (by linarith), abs_of_nonneg (by linarith)]
+  · have h1 := (h g).1 hg
+    apply max_le (abs_nonneg _)
+    rcases abs_cases (-grad - g) with ⟨e', _⟩ | ⟨e', _⟩ <;> linarith
+
+theorem dist_Ici {φ : ℝ → Option ℝ} {w grad l : ℝ}
+    (h : ∀ g, IsRegSubgrad φ w g ↔ l ≤ g) :
+    IsDistToSubdiff φ w grad (.fin (max 0 (grad + l))) := by
+  refine ⟨?_, fun g hg => ?_⟩
+  · rcases le_or_gt l (-grad) with h1 | h1
+    · refine ⟨-grad, (h _).2 h1, ?_⟩
+      rw [sub_self, abs_zero, max_eq_left (by linarith)]
+    · refine ⟨l, (h _).2 (le_refl _), ?_⟩
+      rw [max_eq_right (by linarith), abs_of_nonpos (by linarith)]; ring
+  · have h1 := (h g).1 hg
+    apply max_le (abs_nonneg _)
+    rcases abs_cases (-grad - g) with ⟨e', _⟩ | ⟨e', _⟩ <;> linarith
+
+theorem dist_eq {φ : ℝ → Option ℝ} {w grad d : ℝ}
+    (h : ∀ g, IsRegSubgrad φ w g ↔ g = d) :
+    IsDistToSubdiff φ w grad (.fin |grad + d|) := by
+  have e : |grad + d| = |-grad - d| := by rw [← abs_neg]; congr 1; ring
+  refine ⟨⟨d, (h d).2 rfl, e.symm⟩, fun g hg => ?_⟩
+  rw [(h g).1 hg, e]
+
+theorem dist_all {φ : ℝ → Option ℝ} {w grad : ℝ}
+    (h : ∀ g, IsRegSubgrad φ w g) :
+    IsDistToSubdiff φ w grad (.fin 0) :=
+  ⟨⟨-grad, h _, by simp⟩, fun g _ => abs_nonneg _⟩
+
+/-! ### the documented penalties as `withPos` -/
+
+theorem pen_l1 (a : ℝ) (pos : Bool) (wt : ℝ) :
+    pen (.l1 a pos) wt = withPos pos (fun u => a * |u|) := rfl
+theorem pen_wl1 (a : ℝ) (pos : Bool) (wt : ℝ) :
+    pen (.wl1 a pos) wt = withPos pos (fun u => a * wt * |u|) := rfl
+theorem pen_l1l2 (a r : ℝ) (pos : Bool) (wt : ℝ) :
+    pen (.l1l2 a r pos) wt = withPos pos (fun u => a * (r * |u| + (1 - r) * u ^ 2 / 2)) := rfl
+theorem pen_mcp (a g : ℝ) (pos : Bool) (wt : ℝ) :
+    pen (.mcp a g pos) wt = withPos pos (fun u => mcp a g u) := rfl
+theorem pen_wmcp (a g : ℝ) (pos : Bool) (wt : ℝ) :
+    pen (.wmcp a g pos) wt = withPos pos (fun u => wt * mcp a g u) := rfl
+theorem pen_scad (a g : ℝ) (wt : ℝ) :
+    pen (.scad a g) wt = withPos false (fun u => scad a g u) := rfl
+theorem pen_l05 (a : ℝ) (wt : ℝ) :
+    pen (.l05 a) wt = withPos false (fun u => a * Real.sqrt |u|) := rfl
+theorem pen_l23 (a : ℝ) (wt : ℝ) :
+    pen (.l23 a) wt = withPos false (fun u => a * |u| ^ ((2:ℝ) / 3)) := rfl
+theorem pen_logsum (a e : ℝ) (wt : ℝ) :
+    pen (.logsum a e) wt = withPos false (fun u => a * Real.log (1 + |u| / e)) := rfl
+theorem pen_pos (wt : ℝ) :
+    pen (.pos) wt = withPos true (fun _ => 0) := rfl
+
+theorem pen_box (a wt u : ℝ) :
+    pen (.box a) wt u = if 0 ≤ u ∧ u ≤ a then some 0 else none := by
+  unfold pen
+  simp [SepPen.positive]
+
+/-- scores of the family `c·|u| + q·u²` (ℓ1, weighted ℓ1, elastic net), in the layout of
+    `L1.subdiff_distance` -/
+theorem sd_absquad (c q : ℝ) (pos : Bool) (w grad : ℝ) (hc : 0 ≤ c) :
+    IsDistToSubdiff (withPos pos (fun u => c * |u| + q * u ^ 2)) w grad
+      (if pos then
+        if w < 0 then .inf
+        else if w = 0 then .fin (max 0 (-grad - c))
+        else .fin |grad + (c + 2 * q * w)|
+      else
+        if w = 0 then .fin (max 0 (|grad| - c))
+        else .fin |grad + (c * sgn w + 2 * q * w)|) := by
+  cases pos
+  · simp only [Bool.false_eq_true, if_false]
+    by_cases hw : w = 0
+    · subst hw
+      rw [if_pos rfl]
+      refine dist_Icc hc (fun g => wp_zero 0 c q g ⟨1, one_pos, fun v _ => by ring⟩)
+    · rw [if_neg hw]
+      refine dist_eq (fun g => wp_away_quad (Or.inl rfl) hw
+        (c * |w| + q * w ^ 2) (c * sgn w + 2 * q * w) q g ⟨1, one_pos, fun v _ hv => ?_⟩)
+      rw [abs_near hv, ← sgn_mul_eq_abs w]
+      ring
+  · simp only [if_true]
+    by_cases hneg : w < 0
+    · rw [if_pos hneg]
+      exact dist_none (fun g => wp_infeasible hneg g)
+    rw [if_neg hneg]
+    by_cases hw : w = 0
+    · subst hw
+      rw [if_pos rfl]
+      refine dist_Iic (fun g => wp_zero_pos 0 c q g ⟨1, one_pos, fun v hv _ => ?_⟩)
+      rw [abs_of_nonneg hv]; ring
+    · rw [if_neg hw]
+      have hpos : 0 < w := lt_of_le_of_ne (not_lt.1 hneg) (Ne.symm hw)
+      refine dist_eq (fun g => wp_away_quad (Or.inr hpos) hw
+        (c * |w| + q * w ^ 2) (c + 2 * q * w) q g ⟨1, one_pos, fun v _ hv => ?_⟩)
+      rw [abs_near hv, sgn_pos hpos, abs_of_pos hpos]
+      ring
+
+theorem mcp_zero_param (g v : ℝ) : mcp 0 g v = 0 := by
+  unfold mcp
+  split_ifs with h
+  · have : v = 0 := abs_nonpos_iff.1 (by simpa using h)
+    subst this; simp
+  · ring
+
+theorem sd_mcpk (a g k : ℝ) (pos : Bool) (w grad : ℝ) (ha : 0 ≤ a) (hg : 0 < g) (hk : 0 ≤ k) :
+    IsDistToSubdiff (withPos pos (fun u => k * mcp a g u)) w grad
+      (if pos = true ∧ w < 0 then .inf
+       else if pos = true ∧ w = 0 then .fin (max 0 (-grad - a * k))
+       else if w = 0 then .fin (max 0 (|grad| - a * k))
+       else if |w| < a * g then .fin |grad + k * (a * sgn w - w / g)|
+       else .fin |grad + 0|) := by
+  by_cases hinf : pos = true ∧ w < 0
+  · rw [if_pos hinf]
+    obtain ⟨rfl, hw⟩ := hinf
+    exact dist_none (fun g' => wp_infeasible hw g')
+  rw [if_neg hinf]
+  by_cases hw0 : w = 0
+  · subst hw0
+    have hgerm : ∃ q : ℝ, ∃ δ > 0, ∀ v : ℝ, |v| < δ →
+        k * mcp a g v = 0 + a * k * |v| + q * v ^ 2 := by
+      rcases eq_or_lt_of_le ha with h | h
+      · subst h
+        exact ⟨0, 1, one_pos, fun v _ => by rw [mcp_zero_param]; ring⟩
+      · refine ⟨-k / (2 * g), a * g, mul_pos h hg, fun v hv => ?_⟩
+        unfold mcp
+        rw [if_pos hv.le]
+        ring
+    obtain ⟨q, δ, hδ, H⟩ := hgerm
+    cases pos
+    · rw [if_neg (by simp), if_pos rfl]
+      exact dist_Icc (mul_nonneg ha hk) (fun g' => wp_zero 0 (a * k) q g' ⟨δ, hδ, H⟩)
+    · rw [if_pos ⟨rfl, rfl⟩]
+      refine dist_Iic (fun g' => wp_zero_pos 0 (a * k) q g' ⟨δ, hδ, fun v hv0 hv => ?_⟩)
+      have := H v (by rw [abs_of_nonneg hv0]; exact hv)
+      rw [abs_of_nonneg hv0] at this
+      exact this
+  · have hpw : pos = false ∨ 0 < w := by
+      cases pos
+      · exact Or.inl rfl
+      · right
+        rcases lt_or_gt_of_ne hw0 with h | h
+        · exact absurd ⟨rfl, h⟩ hinf
+        · exact h
+    rw [if_neg (fun h => hw0 h.2), if_neg hw0]
+    by_cases hin : |w| < a * g
+    · rw [if_pos hin]
+      refine dist_eq (fun g' => wp_away_quad hpw hw0 (k * (a * |w| - w ^ 2 / (2 * g)))
+        (k * (a * sgn w - w / g)) (-k / (2 * g)) g'
+        ⟨a * g - |w|, by linarith, fun v hv1 hv2 => ?_⟩)
+      have hv : |v| ≤ a * g := by have := abs_near_le v w; linarith
+      unfold mcp
+      rw [if_pos hv, abs_near hv2, ← sgn_mul_eq_abs w]
+      field_simp
+      ring
+    · rw [if_neg hin]
+      have hout : a * g ≤ |w| := not_lt.1 hin
+      rcases eq_or_lt_of_le hout with heq | hlt
+      · refine dist_eq (fun g' => wp_away_two_quads hpw hw0 (k * (g * a ^ 2 / 2)) 0
+          (-k / (2 * g)) 0 g' ⟨1, one_pos, fun v _ hv2 => ?_⟩)
+        have hσ := sgn_mul_self hw0
+        have hw' : w = sgn w * (a * g) := by
+          rw [heq, ← sabs_eq, sgn_mul_sabs]
+        have habs := abs_near hv2
+        generalize sgn w = σ at hσ hw' habs
+        unfold mcp
+        by_cases hv : |v| ≤ a * g
+        · left
+          rw [if_pos hv, habs, hw']
+          field_simp
+          linear_combination (k * a ^ 2 * g ^ 2) * hσ
+        · right
+          rw [if_neg hv]
+          ring
+      · refine dist_eq (fun g' => wp_away_quad hpw hw0 (k * (g * a ^ 2 / 2)) 0 0 g'
+          ⟨|w| - a * g, by linarith, fun v hv1 _ => ?_⟩)
+        have hv : ¬ |v| ≤ a * g := by have := abs_near_ge v w; linarith
+        unfold mcp
+        rw [if_neg hv]
+        ring
+
+theorem scad_zero_param (g v : ℝ) : scad 0 g v = 0 := by
+  unfold scad
+  split_ifs with h h2
+  · ring
+  · have : v = 0 := abs_nonpos_iff.1 (by simpa using h2)
+    subst this; simp
+  · ring
+
+theorem sgn_cases {w : ℝ} (hw : w ≠ 0) : sgn w = 1 ∨ sgn w = -1 := by
+  rcases lt_or_gt_of_ne hw with h | h
+  · exact Or.inr (sgn_neg h)
+  · exact Or.inl (sgn_pos h)
+
+theorem sd_scad_core (a g : ℝ) (w grad : ℝ) (ha : 0 ≤ a) (hg : 1 < g) :
+    IsDistToSubdiff (withPos false (fun u => scad a g u)) w grad
+      (if w = 0 then .fin (max 0 (|grad| - a))
+       else if |w| ≤ a then .fin |grad + a * sgn w|
+       else if |w| ≤ a * g then .fin |grad + (sgn w * a * g - w) / (g - 1)|
+       else .fin |grad + 0|) := by
+  have hg1 : 0 < g - 1 := by linarith
+  have hg1' : g - 1 ≠ 0 := hg1.ne'
+  have hag : a ≤ a * g := by nlinarith
+  by_cases hw0 : w = 0
+  · subst hw0
+    rw [if_pos rfl]
+    have hgerm : ∃ δ > 0, ∀ v : ℝ, |v| < δ → scad a g v = 0 + a * |v| + 0 * v ^ 2 := by
+      rcases eq_or_lt_of_le ha with h | h
+      · subst h
+        exact ⟨1, one_pos, fun v _ => by rw [scad_zero_param]; ring⟩
+      · refine ⟨a, h, fun v hv => ?_⟩
+        unfold scad
+        rw [if_pos hv.le]
+        ring
+    exact dist_Icc ha (fun g' => wp_zero 0 a 0 g' hgerm)
+  rw [if_neg hw0]
+  have hpw : (false = false) ∨ 0 < w := Or.inl rfl
+  have hσ := sgn_cases hw0
+  have hwσ : w = sgn w * |w| := by rw [← sabs_eq, sgn_mul_sabs]
+  by_cases h1 : |w| ≤ a
+  · rw [if_pos h1]
+    rcases eq_or_lt_of_le h1 with heq | hlt
+    · -- |w| = a : junction of the linear and the quadratic piece
+      have hapos : 0 < a := by rw [← heq]; exact abs_pos.2 hw0
+      refine dist_eq (fun g' => wp_away_two_quads hpw hw0 (a * a) (a * sgn w) 0
+        (-1 / (2 * (g - 1))) g' ⟨a * (g - 1), mul_pos hapos hg1, fun v hv1 hv2 => ?_⟩)
+      have habs := abs_near hv2
+      have hvle : |v| ≤ a * g := by have := abs_near_le v w; nlinarith
+      rw [heq] at hwσ
+      generalize sgn w = σ at hσ hwσ habs
+      unfold scad
+      by_cases hv : |v| ≤ a
+      · left
+        rw [if_pos hv, habs, hwσ]
+        rcases hσ with rfl | rfl <;> ring
+      · right
+        rw [if_neg hv, if_pos hvle, habs, hwσ]
+        rcases hσ with rfl | rfl <;> (field_simp; ring)
+    · refine dist_eq (fun g' => wp_away_quad hpw hw0 (a * |w|) (a * sgn w) 0 g'
+        ⟨a - |w|, by linarith, fun v hv1 hv2 => ?_⟩)
+      have hv : |v| ≤ a := by have := abs_near_le v w; linarith
+      unfold scad
+      rw [if_pos hv, abs_near hv2, ← sgn_mul_eq_abs w]
+      ring
+  rw [if_neg h1]
+  have h1' : a < |w| := not_le.1 h1
+  by_cases h2 : |w| ≤ a * g
+  · rw [if_pos h2]
+    rcases eq_or_lt_of_le h2 with heq | hlt
+    · -- |w| = a g : junction of the quadratic and the constant piece
+      refine dist_eq (fun g' => wp_away_two_quads hpw hw0 (a ^ 2 * (g + 1) / 2)
+        ((sgn w * a * g - w) / (g - 1)) (-1 / (2 * (g - 1))) 0 g'
+        ⟨|w| - a, by linarith, fun v hv1 hv2 => ?_⟩)
+      have habs := abs_near hv2
+      have hvgt : ¬ |v| ≤ a := by have := abs_near_ge v w; linarith
+      rw [heq] at hwσ
+      generalize sgn w = σ at hσ hwσ habs
+      unfold scad
+      by_cases hv : |v| ≤ a * g
+      · left
+        rw [if_neg hvgt, if_pos hv, habs, hwσ]
+        rcases hσ with rfl | rfl <;> (field_simp; ring)
+      · right
+        rw [if_neg hvgt, if_neg hv, hwσ]
+        rcases hσ with rfl | rfl <;> (field_simp; ring)
+    · refine dist_eq (fun g' => wp_away_quad hpw hw0
+        ((2 * a * g * |w| - w ^ 2 - a ^ 2) / (2 * (g - 1)))
+        ((sgn w * a * g - w) / (g - 1)) (-1 / (2 * (g - 1))) g'
+        ⟨min (|w| - a) (a * g - |w|), lt_min (by linarith) (by linarith), fun v hv1 hv2 => ?_⟩)
+      have hv1a := lt_of_lt_of_le hv1 (min_le_left _ _)
+      have hv1b := lt_of_lt_of_le hv1 (min_le_right _ _)
+      have hvgt : ¬ |v| ≤ a := by have := abs_near_ge v w; linarith
+      have hvle : |v| ≤ a * g := by have := abs_near_le v w; linarith
+      unfold scad
+      rw [if_neg hvgt, if_pos hvle, abs_near hv2, ← sgn_mul_eq_abs w]
+      field_simp
+      ring
+  · rw [if_neg h2]
+    have h2' : a * g < |w| := not_le.1 h2
+    refine dist_eq (fun g' => wp_away_quad hpw hw0 (a ^ 2 * (g + 1) / 2) 0 0 g'
+      ⟨|w| - a * g, by linarith, fun v hv1 _ => ?_⟩)
+    have hv : ¬ |v| ≤ a * g := by have := abs_near_ge v w; linarith
+    have hv' : ¬ |v| ≤ a := fun h => hv (h.trans hag)
+    unfold scad
+    rw [if_neg hv', if_neg hv]
+    ring
+
+theorem hasDerivAt_logsum (a e σ w : ℝ) (h : 1 + σ * w / e ≠ 0) :
+    HasDerivAt (fun v : ℝ => a * Real.log (1 + σ * v / e)) (a * (σ / e / (1 + σ * w / e))) w := by
+  have h1 : HasDerivAt (fun v : ℝ => σ * v) σ w := by
+    simpa using (hasDerivAt_id w).const_mul σ
+  have h2 : HasDerivAt (fun v : ℝ => 1 + σ * v / e) (σ / e) w := (h1.div_const e).const_add 1
+  exact (h2.log h).const_mul a
+
+/-- `a·t^p` (`0 < p < 1`, `a > 0`) beats every linear function near `0⁺` -/
+theorem steep_rpow (a p : ℝ) (ha : 0 < a) (hp0 : 0 < p) (hp1 : p < 1) (M : ℝ) :
+    ∃ δ > 0, ∀ t : ℝ, 0 < t → t < δ → M * t ≤ a * t ^ p := by
+  rcases le_or_gt M 0 with hM | hM
+  · refine ⟨1, one_pos, fun t ht _ => ?_⟩
+    have h1 : 0 < t ^ p := Real.rpow_pos_of_pos ht p
+    nlinarith [mul_pos ha h1]
+  · have hq : 0 < 1 - p := by linarith
+    have ham : 0 < a / M := div_pos ha hM
+    refine ⟨(a / M) ^ (1 / (1 - p)), Real.rpow_pos_of_pos ham _, fun t ht htδ => ?_⟩
+    have h1 : t ^ (1 - p) < a / M := by
+      have := Real.rpow_lt_rpow ht.le htδ hq
+      rw [← Real.rpow_mul ham.le, one_div, inv_mul_cancel₀ hq.ne', Real.rpow_one] at this
+      exact this
+    have h2 : M * t ^ (1 - p) < a := by
+      have := (lt_div_iff₀ hM).1 h1
+      linarith
+    have h3 : t = t ^ (1 - p) * t ^ p := by
+      rw [← Real.rpow_add ht]
+      have : 1 - p + p = 1 := by ring
+      rw [this, Real.rpow_one]
+    have h4 : 0 < t ^ p := Real.rpow_pos_of_pos ht p
+    calc M * t = M * t ^ (1 - p) * t ^ p := by rw [mul_assoc, ← h3]
+      _ ≤ a * t ^ p := mul_le_mul_of_nonneg_right h2.le h4.le
+
+/-- `a·|u|^p` (`0 < p < 1`, `a > 0`): every real is a regular sub-gradient at `0` -/
+theorem subgrad_rpow_zero (a p : ℝ) (ha : 0 < a) (hp0 : 0 < p) (hp1 : p < 1) (g : ℝ) :
+    IsRegSubgrad (withPos false (fun u => a * |u| ^ p)) 0 g := by
+  have h0 : withPos false (fun u => a * |u| ^ p) 0 = some 0 := by
+    rw [withPos_some (Or.inl rfl)]
+    simp [Real.zero_rpow hp0.ne']
+  refine subgrad_of_steep g h0 (fun M => ?_) (fun M => ?_)
+  · obtain ⟨δ, hδ, H⟩ := steep_rpow a p ha hp0 hp1 M
+    refine ⟨δ, hδ, fun t ht htδ => ⟨_, withPos_some (Or.inl rfl), ?_⟩⟩
+    have e : |(0 : ℝ) + -1 * t| = t := by rw [zero_add, neg_one_mul, abs_neg, abs_of_pos ht]
+    simp only [e]
+    have := H t ht htδ
+    linarith
+  · obtain ⟨δ, hδ, H⟩ := steep_rpow a p ha hp0 hp1 M
+    refine ⟨δ, hδ, fun t ht htδ => ⟨_, withPos_some (Or.inl rfl), ?_⟩⟩
+    have e : |(0 : ℝ) + 1 * t| = t := by rw [zero_add, one_mul, abs_of_pos ht]
+    simp only [e]
+    have := H t ht htδ
+    linarith
+
+end Skglm.Proofs.SD
+
+namespace Skglm.Proofs
+open Skglm Skglm.Spec Skglm.Proofs.SD
 
 theorem sd_l1 (a : ℝ) (pos : Bool) (wt w grad : ℝ) (ha : 0 ≤ a) :
     IsDistToSubdiff (pen (.l1 a pos) wt) w grad ((SepPen.l1 a pos).sd1 wt w grad) := by
-  sorry
+  have h := sd_absquad a 0 pos w grad ha
+  have e1 : pen (.l1 a pos) wt = withPos pos (fun u => a * |u| + 0 * u ^ 2) := by
+    rw [pen_l1]; congr 1; funext u; ring
+  rw [e1]
+  convert h using 1
+  simp only [SepPen.sd1, SepPen.sdZero, SepPen.sdZeroPos, eqb_iff, sabs_eq, smax_eq]
+  split_ifs <;> first | rfl | (congr 2; ring)
 
 theorem sd_wl1 (a : ℝ) (pos : Bool) (wt w grad : ℝ) (ha : 0 ≤ a) (hwt : 0 ≤ wt) :
     IsDistToSubdiff (pen (.wl1 a pos) wt) w grad ((SepPen.wl1 a pos).sd1 wt w grad) := by
-  sorry
+  have h := sd_absquad (a * wt) 0 pos w grad (mul_nonneg ha hwt)
+  have e1 : pen (.wl1 a pos) wt = withPos pos (fun u => a * wt * |u| + 0 * u ^ 2) := by
+    rw [pen_wl1]; congr 1; funext u; ring
+  rw [e1]
+  convert h using 1
+  simp only [SepPen.sd1, SepPen.sdZero, SepPen.sdZeroPos, eqb_iff, sabs_eq, smax_eq]
+  split_ifs <;> first | rfl | (congr 2; ring)
 
 theorem sd_l1l2 (a r : ℝ) (pos : Bool) (wt w grad : ℝ) (ha : 0 ≤ a) (hr0 : 0 ≤ r) (hr1 : r ≤ 1) :
     IsDistToSubdiff (pen (.l1l2 a r pos) wt) w grad ((SepPen.l1l2 a r pos).sd1 wt w grad) := by
-  sorry
+  have h := sd_absquad (a * r) (a * (1 - r) / 2) pos w grad (mul_nonneg ha hr0)
+  have e1 : pen (.l1l2 a r pos) wt
+      = withPos pos (fun u => a * r * |u| + a * (1 - r) / 2 * u ^ 2) := by
+    rw [pen_l1l2]; congr 1; funext u; ring
+  rw [e1]
+  convert h using 1
+  simp only [SepPen.sd1, SepPen.sdZero, SepPen.sdZeroPos, eqb_iff, sabs_eq, smax_eq]
+  split_ifs <;> first | rfl | (congr 2; ring)
 
 theorem sd_mcp (a g : ℝ) (pos : Bool) (wt w grad : ℝ) (ha : 0 ≤ a) (hg : 0 < g) :
     IsDistToSubdiff (pen (.mcp a g pos) wt) w grad ((SepPen.mcp a g pos).sd1 wt w grad) := by
-  sorry
+  have h := sd_mcpk a g 1 pos w grad ha hg zero_le_one
+  have e1 : pen (.mcp a g pos) wt = withPos pos (fun u => 1 * mcp a g u) := by
+    rw [pen_mcp]; congr 1; funext u; ring
+  rw [e1]
+  convert h using 1
+  simp only [SepPen.sd1, SepPen.sdZero, SepPen.sdZeroPos, eqb_iff, sabs_eq, smax_eq]
+  split_ifs <;> first | rfl | (congr 2; ring)
 
 theorem sd_wmcp (a g : ℝ) (pos : Bool) (wt w grad : ℝ) (ha : 0 ≤ a) (hg : 0 < g) (hwt : 0 ≤ wt) :
     IsDistToSubdiff (pen (.wmcp a g pos) wt) w grad ((SepPen.wmcp a g pos).sd1 wt w grad) := by
-  sorry
+  have h := sd_mcpk a g wt pos w grad ha hg hwt
+  rw [pen_wmcp]
+  convert h using 1
+  simp only [SepPen.sd1, SepPen.sdZero, SepPen.sdZeroPos, eqb_iff, sabs_eq, smax_eq]
+  split_ifs <;> first | rfl | (congr 2; ring)
 
 theorem sd_scad (a g : ℝ) (wt w grad : ℝ) (ha : 0 ≤ a) (hg : 1 < g) :
     IsDistToSubdiff (pen (.scad a g) wt) w grad ((SepPen.scad a g).sd1 wt w grad) := by
-  sorry
+  have h := sd_scad_core a g w grad ha hg
+  rw [pen_scad]
+  convert h using 1
+  simp only [SepPen.sd1, SepPen.sdZero, eqb_iff, sabs_eq, smax_eq]
+  split_ifs <;> first | rfl | (congr 2; ring)
 
 /-- box indicator, at feasible points `0 ≤ w ≤ a` (the statement of C08 is about feasible points) -/
 theorem sd_box (a : ℝ) (wt w grad : ℝ) (ha : 0 < a) (hw0 : 0 ≤ w) (hwa : w ≤ a) :
     IsDistToSubdiff (pen (.box a) wt) w grad ((SepPen.box a).sd1 wt w grad) := by
-  sorry
+  have hin : ∀ u, 0 ≤ u → u ≤ a → pen (.box a) wt u = some 0 := fun u h1 h2 => by
+    rw [pen_box, if_pos ⟨h1, h2⟩]
+  have hout : ∀ u, (u < 0 ∨ a < u) → pen (.box a) wt u = none := fun u h => by
+    rw [pen_box, if_neg]
+    rintro ⟨h1, h2⟩
+    rcases h with h | h <;> linarith
+  by_cases h0 : w = 0
+  · subst h0
+    have e : (SepPen.box a).sd1 wt 0 grad = .fin (max 0 (-grad - 0)) := by
+      simp only [SepPen.sd1, eqb_iff, smax_eq]
+      rw [if_pos trivial, sub_zero]
+    rw [e]
+    refine dist_Iic (fun g => subgrad_iff_left_none g (hin 0 (le_refl _) ha.le)
+      ⟨1, one_pos, fun t ht _ => hout _ (Or.inl (by linarith))⟩
+      (SideSlope.of_quad 0 (Or.inl rfl) ⟨a, ha, fun t ht hta => ?_⟩))
+    rw [hin _ (by linarith) (by linarith)]
+    congr 1; ring
+  by_cases h1 : w = a
+  · subst h1
+    have e : (SepPen.box w).sd1 wt w grad = .fin (max 0 (grad + 0)) := by
+      simp only [SepPen.sd1, eqb_iff, smax_eq]
+      rw [if_neg h0, if_pos trivial, add_zero]
+    rw [e]
+    refine dist_Ici (fun g => subgrad_iff_right_none g (hin w hw0 (le_refl _))
+      (SideSlope.of_quad 0 (Or.inr rfl) ⟨w, ha, fun t ht hta => ?_⟩)
+      ⟨1, one_pos, fun t ht _ => hout _ (Or.inr (by linarith))⟩)
+    rw [hin _ (by linarith) (by linarith)]
+    congr 1; ring
+  · have e : (SepPen.box a).sd1 wt w grad = .fin |grad + 0| := by
+      simp only [SepPen.sd1, eqb_iff, sabs_eq]
+      rw [if_neg h0, if_neg h1, add_zero]
+    rw [e]
+    have hw0' : 0 < w := lt_of_le_of_ne hw0 (Ne.symm h0)
+    have hwa' : w < a := lt_of_le_of_ne hwa h1
+    refine dist_eq (fun g => subgrad_iff_of_quad 0 0 0 g
+      ⟨min w (a - w), lt_min hw0' (by linarith), fun v hv => ?_⟩)
+    have h2 := abs_lt.1 (lt_of_lt_of_le hv (min_le_left _ _))
+    have h3 := abs_lt.1 (lt_of_lt_of_le hv (min_le_right _ _))
+    rw [hin v (by linarith) (by linarith)]
+    congr 1; ring
 
 theorem sd_pos (wt w grad : ℝ) :
     IsDistToSubdiff (pen (.pos) wt) w grad ((SepPen.pos : SepPen ℝ).sd1 wt w grad) := by
-  sorry
+  rw [pen_pos]
+  rcases lt_trichotomy w 0 with hw | hw | hw
+  · have e : (SepPen.pos : SepPen ℝ).sd1 wt w grad = .inf := by
+      simp only [SepPen.sd1, eqb_iff]
+      rw [if_neg hw.ne, if_neg (not_lt.2 hw.le)]
+    rw [e]
+    exact dist_none (fun g => wp_infeasible hw g)
+  · subst hw
+    have e : (SepPen.pos : SepPen ℝ).sd1 wt 0 grad = .fin (max 0 (-grad - 0)) := by
+      simp only [SepPen.sd1, eqb_iff, smax_eq]
+      rw [if_pos trivial, sub_zero]
+    rw [e]
+    exact dist_Iic (fun g => wp_zero_pos 0 0 0 g ⟨1, one_pos, fun v _ _ => by ring⟩)
+  · have e : (SepPen.pos : SepPen ℝ).sd1 wt w grad = .fin |grad + 0| := by
+      simp only [SepPen.sd1, eqb_iff, sabs_eq]
+      rw [if_neg hw.ne', if_pos hw, abs_neg, add_zero]
+    rw [e]
+    exact dist_eq (fun g => wp_away_quad (Or.inr hw) hw.ne' 0 0 0 g
+      ⟨1, one_pos, fun v _ _ => by ring⟩)
 
 theorem sd_logsum (a e : ℝ) (wt w grad : ℝ) (ha : 0 ≤ a) (he : 0 < e) :
     IsDistToSubdiff (pen (.logsum a e) wt) w grad ((SepPen.logsum a e).sd1 wt w grad) := by
-  sorry
+  rw [pen_logsum]
+  by_cases hw0 : w = 0
+  · subst hw0
+    have e1 : (SepPen.logsum a e).sd1 wt 0 grad = .fin (max 0 (|grad| - a / e)) := by
+      simp only [SepPen.sd1, SepPen.sdZero, eqb_iff, sabs_eq, smax_eq]
+      rw [if_pos trivial]
+    rw [e1]
+    have h0 : withPos false (fun u => a * Real.log (1 + |u| / e)) 0 = some 0 := by
+      rw [withPos_some (Or.inl rfl)]; simp
+    refine dist_Icc (div_nonneg ha he.le) (fun g' => subgrad_iff_kink g' h0 ?_ ?_)
+    · have hd := hasDerivAt_logsum a e (-1) 0 (by simp)
+      have hd' : HasDerivAt (fun v : ℝ => a * Real.log (1 + -1 * v / e)) (-(a / e)) 0 :=
+        hd.congr_deriv (by simp; ring)
+      refine SideSlope.of_deriv hd' (by simp) (Or.inr rfl) ⟨1, one_pos, fun t ht _ => ?_⟩
+      rw [withPos_some (Or.inl rfl)]
+      congr 4
+      rw [zero_add, neg_one_mul, abs_neg, abs_of_pos ht]; ring
+    · have hd := hasDerivAt_logsum a e 1 0 (by simp)
+      have hd' : HasDerivAt (fun v : ℝ => a * Real.log (1 + 1 * v / e)) (a / e) 0 :=
+        hd.congr_deriv (by simp; ring)
+      refine SideSlope.of_deriv hd' (by simp) (Or.inl rfl) ⟨1, one_pos, fun t ht _ => ?_⟩
+      rw [withPos_some (Or.inl rfl)]
+      congr 4
+      rw [zero_add, one_mul, abs_of_pos ht]; ring
+  · have e1 : (SepPen.logsum a e).sd1 wt w grad = .fin |grad + sgn w * a / (e + |w|)| := by
+      simp only [SepPen.sd1, eqb_iff, sabs_eq]
+      rw [if_neg hw0]
+    rw [e1]
+    have hne : 1 + sgn w * w / e ≠ 0 := by
+      rw [sgn_mul_eq_abs]
+      have : 0 ≤ |w| / e := div_nonneg (abs_nonneg _) he.le
+      linarith
+    have hd := hasDerivAt_logsum a e (sgn w) w hne
+    have hd' : HasDerivAt (fun v : ℝ => a * Real.log (1 + sgn w * v / e))
+        (sgn w * a / (e + |w|)) w := by
+      refine hd.congr_deriv ?_
+      rw [sgn_mul_eq_abs] at hne ⊢
+      have : e + |w| ≠ 0 := by have := abs_nonneg w; linarith
+      field_simp
+    refine dist_eq (fun g' => wp_away_deriv (Or.inl rfl) hw0 g' hd' (fun v hv => ?_))
+    rw [abs_near hv]
 
 theorem sd_l05 (a : ℝ) (wt w grad : ℝ) (ha : 0 < a) :
     IsDistToSubdiff (pen (.l05 a) wt) w grad ((SepPen.l05 a).sd1 wt w grad) := by
-  sorry
+  rw [pen_l05]
+  by_cases hw0 : w = 0
+  · subst hw0
+    have e1 : (SepPen.l05 a).sd1 wt 0 grad = .fin 0 := by
+      simp only [SepPen.sd1, eqb_iff]
+      rw [if_pos trivial]
+    rw [e1]
+    have e2 : (fun u : ℝ => a * Real.sqrt |u|) = (fun u : ℝ => a * |u| ^ ((1:ℝ) / 2)) := by
+      funext u; rw [Real.sqrt_eq_rpow]
+    rw [e2]
+    exact dist_all (fun g' => subgrad_rpow_zero a (1 / 2) ha (by norm_num) (by norm_num) g')
+  · have hwpos : 0 < |w| := abs_pos.2 hw0
+    have e1 : (SepPen.l05 a).sd1 wt w grad = .fin |grad + sgn w * a / (2 * Real.sqrt |w|)| := by
+      simp only [SepPen.sd1, eqb_iff, sabs_eq, nat_eq, scalar_sqrt_eq, Nat.cast_ofNat]
+      rw [if_neg hw0, ← abs_neg]
+      congr 2; ring
+    rw [e1]
+    have h1 : HasDerivAt (fun v : ℝ => sgn w * v) (sgn w) w := by
+      simpa using (hasDerivAt_id w).const_mul (sgn w)
+    have hne : sgn w * w ≠ 0 := by rw [sgn_mul_eq_abs]; exact hwpos.ne'
+    have hd := (h1.sqrt hne).const_mul a
+    have hd' : HasDerivAt (fun v : ℝ => a * Real.sqrt (sgn w * v))
+        (sgn w * a / (2 * Real.sqrt |w|)) w := by
+      refine hd.congr_deriv ?_
+      rw [sgn_mul_eq_abs]; ring
+    refine dist_eq (fun g' => wp_away_deriv (Or.inl rfl) hw0 g' hd' (fun v hv => ?_))
+    rw [abs_near hv]
 
 theorem sd_l23 (a : ℝ) (wt w grad : ℝ) (ha : 0 < a) :
     IsDistToSubdiff (pen (.l23 a) wt) w grad ((SepPen.l23 a).sd1 wt w grad) := by
-  sorry
+  rw [pen_l23]
+  by_cases hw0 : w = 0
+  · subst hw0
+    have e1 : (SepPen.l23 a).sd1 wt 0 grad = .fin 0 := by
+      simp only [SepPen.sd1, eqb_iff]
+      rw [if_pos trivial]
+    rw [e1]
+    exact dist_all (fun g' => subgrad_rpow_zero a (2 / 3) ha (by norm_num) (by norm_num) g')
+  · have hwpos : 0 < |w| := abs_pos.2 hw0
+    have e1 : (SepPen.l23 a).sd1 wt w grad
+        = .fin |grad + sgn w * a * 2 / (3 * |w| ^ ((1:ℝ) / 3))| := by
+      simp only [SepPen.sd1, eqb_iff, sabs_eq, nat_eq, frac_eq, scalar_pow_eq, Nat.cast_ofNat,
+        Nat.cast_one]
+      rw [if_neg hw0, ← abs_neg]
+      congr 2; ring
+    rw [e1]
+    have h1 : HasDerivAt (fun v : ℝ => sgn w * v) (sgn w) w := by
+      simpa using (hasDerivAt_id w).const_mul (sgn w)
+    have hne : sgn w * w ≠ 0 := by rw [sgn_mul_eq_abs]; exact hwpos.ne'
+    have hd := (h1.rpow_const (p := (2:ℝ) / 3) (Or.inl hne)).const_mul a
+    have hd' : HasDerivAt (fun v : ℝ => a * (sgn w * v) ^ ((2:ℝ) / 3))
+        (sgn w * a * 2 / (3 * |w| ^ ((1:ℝ) / 3))) w := by
+      refine hd.congr_deriv ?_
+      rw [sgn_mul_eq_abs]
+      have e3 : (2:ℝ) / 3 - 1 = -(1 / 3) := by norm_num
+      rw [e3, Real.rpow_neg (abs_nonneg w)]
+      have : |w| ^ ((1:ℝ) / 3) ≠ 0 := (Real.rpow_pos_of_pos hwpos _).ne'
+      field_simp
+    refine dist_eq (fun g' => wp_away_deriv (Or.inl rfl) hw0 g' hd' (fun v hv => ?_))
+    rw [abs_near hv]
 
 /-- generic: the score is zero exactly at first-order stationary points -/
 theorem score_zero_iff (φ : ℝ → Option ℝ) (w grad : ℝ) (d : Ext ℝ) (h : IsDistToSubdiff φ w grad d) :
     d = .fin 0 ↔ IsRegSubgrad φ w (-grad) := by
-  sorry
+  cases d with
+  | inf =>
+    constructor
+    · intro h'; cases h'
+    · intro h'; exact absurd h' (h _)
+  | fin d =>
+    obtain ⟨⟨g0, hg0, hd0⟩, hlb⟩ := h
+    constructor
+    · intro h'
+      injection h' with h'
+      subst h'
+      rw [abs_eq_zero, sub_eq_zero] at hd0
+      rw [hd0]; exact hg0
+    · intro hs
+      have h1 := hlb _ hs
+      rw [sub_self, abs_zero] at h1
+      have h2 : 0 ≤ d := hd0 ▸ abs_nonneg _
+      rw [le_antisymm h1 h2]
 
 /-- Fermat's rule for a prox step: a global minimiser `w` of `½(·-x)² + s·φ` has
     `(x - w)/s` as a regular sub-gradient of `φ` at `w`. -/
@@ -76,6 +655,20 @@ theorem prox_min_subgrad (φ : ℝ → Option ℝ) (x s w : ℝ) (hs : 0 < s)
         | some fv => (w - x) ^ 2 / 2 + s * fw ≤ (v - x) ^ 2 / 2 + s * fv
         | none => True) :
     IsRegSubgrad φ w ((x - w) / s) := by
-  sorry
+  obtain ⟨fw, hfw, H⟩ := hmin
+  refine ⟨fw, hfw, fun ε hε => ⟨2 * s * ε, by positivity, fun v hv => ?_⟩⟩
+  have := H v
+  cases hφ : φ v with
+  | none => trivial
+  | some fv =>
+    rw [hφ] at this
+    simp only at this ⊢
+    have ht0 : 0 ≤ |v - w| := abs_nonneg _
+    have ht : |v - w| * |v - w| = (v - w) * (v - w) := abs_mul_abs_self _
+    have e : s * ((x - w) / s * (v - w)) = (x - w) * (v - w) := by field_simp
+    have : s * (fw + (x - w) / s * (v - w) - ε * |v - w|) ≤ s * fv := by
+      have h3 := mul_le_mul_of_nonneg_left hv.le ht0
+      nlinarith
+    exact le_of_mul_le_mul_left this hs
 
 end Skglm.Proofs
